@@ -32,6 +32,17 @@ pub fn sigma_lex() -> Vec<&'static str> {
     ]
 }
 
+// Characters whose grapheme cluster depends on what precedes them (regional-indicator pairs, zero
+// width joiner sequences, emoji modifiers and variation selectors, a virama between consonants, Hangul
+// jamo, CR LF), next to ordinary text: the boundary of an unexpected symbol has to be found with the
+// text before it in view.
+pub fn sigma_cluster() -> Vec<&'static str> {
+    vec![
+        "\u{1f1fa}", "\u{1f1f8}", "\u{200d}", "\u{1f468}", "\u{1f469}", "\u{fe0f}", "\u{1f3fd}", "\u{915}", "\u{94d}", "\u{937}", "\u{1100}", "\u{1161}", "\u{11a8}", "\u{301}",
+        "$", "x", " ", "\r", "\n", "7",
+    ]
+}
+
 pub fn sigma_lex_core() -> Vec<&'static str> {
     vec![
         "#", "\n", " ", "x", "é", "_", "if", "i", "f", "0", ";", "=", ">", "-", "(", ")", "+", "$", "\u{301}", "𝑥",
@@ -320,13 +331,14 @@ impl Prop for C09 {
         vec![
             string_sweep("strings over Σlex", sigma_lex(), 0, tier.pick(3, 4), "C09"),
             string_sweep("strings over Σlex-core", sigma_lex_core(), 4, tier.pick(4, 5), "C09"),
+            string_sweep("strings over Σcluster", sigma_cluster(), 1, tier.pick(4, 5), "C09"),
             de_bruijn_sweep("C09"),
         ]
     }
     fn evidence(&self, tier: Tier) -> EvidenceSpec {
         EvidenceSpec {
             level: "exploration",
-            rule: "every concatenation of at most k fragments over the alphabets Σlex (44 fragments: every symbol, 1/2/3-byte whitespace, 1/2/4-byte letters, keywords and their prefix letters, ASCII and non-ASCII digits, illegal characters, a combining mark, NUL) and Σlex-core (24), plus de Bruijn texts containing every fragment triple; each is tokenized by the real `tokenize` and compared with the declarative reference lexer and the partition invariants. Distinct by construction (one case per fragment sequence); non-trivial = at least two fragments yielding a token stream, or at least one illegal character".to_owned(),
+            rule: "every concatenation of at most k fragments over the alphabets Σlex (44 fragments: every symbol, 1/2/3-byte whitespace, 1/2/4-byte letters, keywords and their prefix letters, ASCII and non-ASCII digits, illegal characters, a combining mark, NUL) Σlex-core (24) and Σcluster (20: regional indicators, zero width joiner, emoji with modifiers and variation selectors, consonant-virama-consonant, Hangul jamo, a combining mark, CR and LF next to ordinary text — characters whose grapheme cluster depends on the text before them), plus de Bruijn texts containing every fragment triple; each is tokenized by the real `tokenize` and compared with the declarative reference lexer and the partition invariants. Distinct by construction (one case per fragment sequence); non-trivial = at least two fragments yielding a token stream, or at least one illegal character".to_owned(),
             assumptions: vec![
                 "reference lexer (engine/src/model/lexer.rs) states the token shapes of C09 and the line-break rule of C10".to_owned(),
                 "grapheme boundaries are computed with the unicode-segmentation crate (same crate as gram)".to_owned(),
